@@ -88,6 +88,38 @@ def oracle(p, s, cl, raw):
         if got.count(n) > pushed.count(n): return 'node %s was pushed %d time(s) and returned %d times' % (n, pushed.count(n), got.count(n))
     return None
 
+def project_lfsrcu(prog, raw):
+    """implementation trace of scen_lfsrcu -> action lines of LfsRcu/LfsRcuExec.v (rexec)"""
+    def nid(v):
+        if v in ('0', '0x0'): return 0
+        m = re.match(r'&?n\+(\d+)$', v)
+        return 2 + int(m.group(1)) // 8 if m else -1
+    out = ['T ' + prog]; cur = {}
+    for l in raw.splitlines():
+        l = re.sub(r' mo=-?\d+', '', l)
+        p = l.split()
+        if len(p) < 2 or not p[0].isdigit(): continue
+        t, k = p[0], p[1]
+        if k == 'call':
+            cur[t] = p[2]
+            if p[2] == 'push': out.append('CP %s %d' % (t, nid(p[3])))
+            elif p[2] in ('sync', 'skip'): out.append('SC %s' % t)
+        elif k == 'ret':
+            if p[2] == 'pop': out.append('RP %s %d' % (t, nid(p[3])))
+            elif p[2] == 'push': out.append('RU %s' % t)
+            elif p[2] == 'sync': out.append('SD %s' % t)
+            cur.pop(t, None)
+        elif k == 'cas' and p[2] == 'head+0': out.append('CAS %s %d %d %d' % (t, nid(p[3][4:]), nid(p[4][4:]), nid(p[6])))
+        elif k == 'load' and cur.get(t) == 'pop':
+            if p[2] == 'head+0': out.append('LH %s %d' % (t, nid(p[4])))
+            else:
+                m = re.match(r'n\+(\d+)$', p[2])
+                if m: out.append('LN %s %d %d' % (t, 2 + int(m.group(1)) // 8, nid(p[4])))
+        elif k == 'note' and cur.get(t) == 'pop' and p[2] == 'rl': out.append('EN %s' % t)
+        elif k == 'note' and cur.get(t) == 'pop' and p[2] == 'ru': out.append('LV %s' % t)
+    out.append('.')
+    return out
+
 def gen(ctx, progs, n, tso, pid):
     out = []
     for prog in progs[:3 if ctx.quick() else len(progs)]:
@@ -131,7 +163,20 @@ def run(ctx):
         for prog in ('P0P1/P2/pp', 'P0P1/P2/P3p', 'P0/P1/pe'):
             for k in range(0, 14):
                 rc.append((prog, '>0' * prog.split('/')[0].count('P') + '1' * k + '>2>2' + '1' * 30 + '012' * 40))
-        corr_schedules(ctx, 'legacy rculfstack LIFO', rimpl, None, rc, canon_c, oracle=oracle, nontrivial=contended, tail='012345' * 150, scenario='scen_lfsrcu (cds_lfs_*_rcu, abstract RCU) - oracle only')
+        blocks = []
+        def roracle(p, s, cl, raw): blocks.append((p, s, project_lfsrcu(p, raw))); return oracle(p, s, cl, raw)
+        corr_schedules(ctx, 'legacy rculfstack LIFO', rimpl, None, rc, canon_c, oracle=roracle, nontrivial=contended, tail='012345' * 150, scenario='scen_lfsrcu (cds_lfs_*_rcu, abstract RCU)')
+        rdriver = build_model_driver(ctx, 'lfsrcu', 'ExtractLfsRcu.v', 'lfsrcu_driver.ml')
+        if rdriver and blocks:
+            rc2, out, err = sh([rdriver], inp='\n'.join('\n'.join(b) for _, _, b in blocks) + '\n', timeout=300); res = out.splitlines(); nrej = 0
+            if len(res) != len(blocks): ctx.fail('harness', 'lfsrcu_driver output', 'expected %d verdicts, got %d: %s' % (len(blocks), len(res), err[-300:]))
+            else:
+                for (p, s, _), r in zip(blocks, res):
+                    if not r.startswith('ok'):
+                        nrej += 1
+                        if nrej <= 2: ctx.fail('correspondence', 'LfsRcuExec accepts the trace of static/rculfstack.h', 'prog %s schedule %s...: the model does not accept the implementation trace: %s' % (p, s[:60], r),
+                                               concrete={'scenario': 'scen_lfsrcu', 'prog': p, 'schedule': s + '012345' * 150, 'verdict': r})
+                ctx.cov['traces_validated_against_impl'] += len(blocks) - nrej; ctx.cov['disagreements'] = ctx.cov.get('disagreements', 0) + nrej
     for nm, src, progs, tso, tl in (('scen_wfs_plain', 'scen_wfs.c', WFS_MODEL_PROGS + WFS_ORACLE_PROGS, True, tail), ('scen_lfs_plain', 'scen_lfs.c', LFS_PROGS, False, '012345' * 150)):
         pimpl = build_scenario(ctx, nm, src, plain=True)
         if pimpl: corr_schedules(ctx, nm + ' LIFO with instrumented plain stores', pimpl, None, gen(ctx, progs, n // 2, tso, 'C11'), canon_c, oracle=oracle, nontrivial=contended, tail=tl, scenario=nm + ' (oracle only)')
